@@ -9,10 +9,19 @@ Structure (see levels.d/C40.json for what is bounded and what is not):
                            that ties the byte list to the integer digit by digit, base 256
        packify(Into)       n == PK(nf): the fold PK(k+1) = bor(PK(k), shl(m_k, 8*size - S(k+1)))
        unpackify           fields[j] == shr(band(n, shl(pow2(w_j) - 1, p_j)), p_j), p_j = 8*size - S(j+1)
-       signExtend          two's complement (bit-vector mode, width bound stated there)
+       signExtend          two's complement; integer mode, the three operator facts it assumes are lemmas G1/G2
+                           on 64-bit vectors (hence 1 <= n <= 63)
+       binize / unbinize   digit k = bit of weight 2^(size-1-k); left fold base 2 (texts = lists of characters)
+       hexify / hexize     fold of the two hex digits of each byte (per-byte table checked on all 256 bytes)
+       unhexify / unhexize BOUNDED stand-ins only (native enumeration, verify=False, never counted as proved)
  (2) LEMMAS about those specification functions (REG.lemmas), each an explicit induction: base + step with the
      induction hypothesis as the path condition.  The induction principle over the naturals is the only
      meta-step and is listed as an assumption.
+       F1-F7 byte certificates (unbounded)      S prefix sums (unbounded)      G1/G2 xor with one bit (64-bit)
+       E  pack/unpack round trip, REAL operators on 64-bit vectors, 8*size <= 63
+       E' the same round trip over the integers, unbounded, relative to five cross-checked operator identities
+          (with N1-N4 generic div/mod facts and P2 pow2 additivity)
+       B1/B2 binize/unbinize inverses (64-bit vectors, <= 63 bits)
 
 Integer mode with a bit-operation theory (REG.bitop_hook, active only for non-bitvec contracts of this file):
  * second operand a CONCRETE constant: exact linear semantics over the mathematical integers
@@ -1499,30 +1508,49 @@ def _Eint_lemmas():
                                        p2(a + bb + 1) == 2 * p2(a + bb), p2(bb + 1) == 2 * p2(bb)],
            p2(a + (bb + 1)) == p2(a) * p2(bb + 1))
     _lemma("P2 pow2 positive/step", [a >= 0, p2(a) >= 1, p2(a + 1) == 2 * p2(a)], p2(a + 1) >= 1)
+    # generic facts about div / mod with a SYMBOLIC positive divisor (plain integer variables, no pow2): proved once,
+    # then used below through instances (instantiation of a universally valid formula is pure logic)
+    X, Y, Dv, Cv, rr = z3.Ints("X Y Dv Cv rr")
+    N1 = lambda x, d: (x * d) / d == x                                        # d >= 1
+    N2 = lambda x, d, r: (x * d + r) % d == r                                 # d >= 1, 0 <= r < d
+    N3 = lambda x, d, c, r: (x * d + r) / (c * d) == x / c                    # d, c >= 1, 0 <= r < d
+    N4 = lambda x, d: x % d == x                                              # 0 <= x < d
+    _lemma("N1 (x*d) div d == x", [Dv >= 1], N1(X, Dv))
+    _lemma("N2 (x*d + r) mod d == r", [Dv >= 1, rr >= 0, rr < Dv], N2(X, Dv, rr))
+    _lemma("N3 (x*d + r) div (c*d) == x div c", [Dv >= 1, Cv >= 1, rr >= 0, rr < Dv], N3(X, Dv, Cv, rr))
+    _lemma("N4 x mod d == x for 0 <= x < d", [X >= 0, X < Dv], N4(X, Dv))
     T, sk, w, m, A, Pk, e, wj = z3.Ints("T sk w m A P e wj")
     pn = T - sk - w
     D = p2(T - sk)
-    field = lambda word, pos, width: (word / p2(pos)) % p2(width)
-    pre = [T >= 0, sk >= 0, w >= 0, sk + w <= T, m >= 0, m < p2(w),
+    Q, Pn = p2(w), p2(pn)
+    pre = [T >= 0, sk >= 0, w >= 0, sk + w <= T, m >= 0, m < Q,
            Pk == A * D, A >= 0, A < p2(sk),                                   # invariant I(k)
-           D == p2(w) * p2(pn), p2(sk + w) == p2(sk) * p2(w),                 # instances of P2
-           p2(w) >= 1, p2(pn) >= 1, p2(sk) >= 1, D >= 1]
-    P1 = Pk + m * p2(pn)
-    A1 = A * p2(w) + m
+           D == Q * Pn, p2(sk + w) == p2(sk) * Q,                             # instances of P2
+           Q >= 1, Pn >= 1, p2(sk) >= 1, D >= 1]
+    P1 = Pk + m * Pn
+    A1 = A * Q + m
     _lemma("E' round trip unbounded/base", [p2(z3.IntVal(0)) == 1], z3.And(0 == 0 * p2(T - 0), 0 < p2(z3.IntVal(0))))
-    _lemma("E' round trip unbounded/step: side conditions of I4 (or = plus)", pre,
-           z3.And(Pk % D == 0, m * p2(pn) >= 0, m * p2(pn) < D))
+    _lemma("E' round trip unbounded/step: side conditions of I4 (or = plus)", pre + [N2(A, D, z3.IntVal(0))],
+           z3.And(Pk % D == 0, m * Pn >= 0, m * Pn < D))
     _lemma("E' round trip unbounded/step: invariant kept", pre,
-           z3.And(P1 == A1 * p2(pn), A1 >= 0, A1 < p2(sk + w)))
-    _lemma("E' round trip unbounded/step: new field reads back", pre + [P1 == A1 * p2(pn)], field(P1, pn, w) == m)
-    # an earlier field j < k lies at p = (T - sk) + e, e >= 0 (lemma S): pow2(p) = pow2(e) * D
+           z3.And(P1 == A1 * Pn, A1 >= 0, A1 < p2(sk + w)))
+    # field(P1, pn, w) = (P1 div 2^pn) mod 2^w
+    _lemma("E' round trip unbounded/step: new field reads back",
+           pre + [P1 == A1 * Pn, N1(A1, Pn), N2(A, Q, m)], (P1 / Pn) % Q == m)
+    # an earlier field j < k lies at p = (T - sk) + e, e >= 0 (lemma S): pow2(p) = pow2(e) * D; the word divided by
+    # 2^p is the same before and after the step (hence so is the field (word div 2^p) mod 2^wj)
     p = (T - sk) + e
+    r = m * Pn
     _lemma("E' round trip unbounded/step: earlier fields undisturbed",
-           pre + [e >= 0, wj >= 0, p2(p) == p2(e) * D, p2(e) >= 1, m * p2(pn) >= 0, m * p2(pn) < D],
+           pre + [e >= 0, p2(p) == p2(e) * D, p2(e) >= 1, r >= 0, r < D,
+                  N3(A, D, p2(e), r), N3(A, D, p2(e), z3.IntVal(0))],
            (P1 / p2(p)) == (Pk / p2(p)))
+    R = p2(sk)
+    _lemma("E' round trip unbounded/use: bound", [Pk == A * D, A >= 0, A <= R - 1, p2(T) == R * D, D >= 1, R >= 1],
+           z3.And(Pk >= 0, Pk < p2(T)))
     _lemma("E' round trip unbounded/use: mask and padding",
-           [T >= 0, sk >= 0, sk <= T, Pk == A * D, A >= 0, A < p2(sk), p2(T) == p2(sk) * D, D >= 1, p2(sk) >= 1],
-           z3.And(Pk >= 0, Pk < p2(T), Pk % p2(T) == Pk, Pk % D == 0))
+           [Pk == A * D, Pk >= 0, Pk < p2(T), D >= 1, N4(Pk, p2(T)), N2(A, D, z3.IntVal(0))],
+           z3.And(Pk % p2(T) == Pk, Pk % D == 0))
 
 
 _Eint_lemmas()
@@ -1541,6 +1569,9 @@ def _selftest_bridge():
         mm = rng.getrandbits(rng.choice([1, 3, 8, 64]))
         x = rng.getrandbits(rng.choice([8, 64, 200])) * rng.choice([1, 1, -1])
         n += 1
+        wdt = rng.randint(0, 40)
+        if ((x & ((2 ** wdt - 1) << p)) >> p) != (x // 2 ** p) % 2 ** wdt:          # the field expression as a whole
+            raise AssertionError("field expression differs from (x div 2^p) mod 2^w: x=%d p=%d w=%d" % (x, p, wdt))
         if (a | b) != a + b or (x & (mm << p)) != (((x >> p) & mm) << p):
             raise AssertionError("bridge identity fails on CPython: a=%d b=%d x=%d m=%d p=%d" % (a, b, x, mm, p))
     for a in range(-64, 65):
